@@ -17,6 +17,8 @@ SEMANTIC = [
     ('possible arithmetic underflow/overflow', 'overflow'),
     ('possible division by zero', 'div-by-zero'),
     ('assertion failed', 'assertion'),
+    ('requires not satisfied', 'assertion'),          # `assert(..) by(..) requires P`: P is an obligation like any assertion
+    ('assertion not satisfied', 'assertion'),
     ('index out of bounds', 'bounds'),
     ('recommendation not met', 'recommends'),
     ('possible bit shift underflow/overflow', 'shift-overflow'),
